@@ -16,7 +16,7 @@ impl<R: Req> Endpoint<R> {
                 && (r->Ok_0.1 is Some ==> 1 <= r->Ok_0.1->Some_0@.len() <= 32),
     { unimplemented!() }
 
-    // proved-by: c08_recv_data_* : one read of at most `len` bytes into a fresh zeroed buffer of exactly `len` bytes
+    // proved-by: c08_recv_data_segmentation_bounded : at most `len` bytes into a fresh zeroed buffer of exactly `len` bytes
     #[verifier::external_body]
     pub fn recv_data(&mut self, len: usize) -> (r: Result<(usize, Vec<u8>)>)
         ensures
